@@ -1,6 +1,7 @@
 /-
-C22: concrete evaluations of the model for the witnesses of F-23 and F-29 (and a guarded query for
-non-vacuity).  `computeComponent`/`runStages`/`computeFold`/`foldOne` are compiled by well-founded
+C22: concrete evaluations of the model for the former witnesses of F-23 and F-29 (now regression
+examples: both runs agree), for a query with an inconsistent count reference, and for a query in
+which both shortcuts are active (non-vacuity).  `computeComponent`/`runStages`/`computeFold`/`foldOne` are compiled by well-founded
 recursion and do not reduce by `decide`; they are unfolded with the lemmas below and the closed,
 non-recursive parts are discharged by `rfl`.
 -/
@@ -62,79 +63,133 @@ theorem wEnv_noLimits : (wEnv true).noLimits = wEnv false := rfl
 def wV (vid : Vid) : IRVertex := ⟨vid, "Number", none, []⟩
 def wGe1 : IRFilter := ⟨.bin .greaterThanOrEqual, .count, some (.var "one" ⟨"Int", [false]⟩)⟩
 
-/-! #### F-23: `{ Four { value @output divisor @fold @transform(op:"count") @filter(op:">=",
-value:["$one"]) @tag(name:"c") multiple @fold @transform(op:"count") @output(name:"m")
-@filter(op:"=", value:["%c"]) } }` -/
+/-! #### the former witness of F-23: `{ Four { value @output divisor @fold @transform(op:"count")
+@filter(op:">=", value:["$one"]) @tag(name:"c") multiple @fold @transform(op:"count")
+@output(name:"m") @filter(op:"=", value:["%c"]) } }`.  `has_tag_on_fold_count` now sees the tag in
+the sibling fold's post-filter: the first fold is not truncated, both runs agree. -/
 
 def wF1 : Fold := .mk 1 1 2 "divisor" [] (.mk 2 [wV 2] [] [] []) [] [] [wGe1]
-def wF2 : Fold := .mk 2 1 3 "multiple" [] (.mk 3 [wV 3] [] [] []) [] ["m"]
-  [⟨.bin .equals, .count, some (.tag (.fcount 1 2))⟩]
-def wRoot : Component := .mk 1 [wV 1] [] [wF1, wF2] [⟨"value", 1, "value", wInt⟩]
-def wIR : IRQuery :=
-  { rootName := "Four", rootParams := [], variables := [("one", ⟨"Int", [false]⟩)], rootComponent := wRoot }
+/-- the second fold; `rv` = the `fold_root_vid` recorded in its reference to the first fold's count
+(the frontend records the first fold's root, 2) -/
+def tF2 (rv : Vid) : Fold := .mk 2 1 3 "multiple" [] (.mk 3 [wV 3] [] [] []) [] ["m"]
+  [⟨.bin .equals, .count, some (.tag (.fcount 1 rv))⟩]
+def tRoot (rv : Vid) : Component := .mk 1 [wV 1] [] [wF1, tF2 rv] [⟨"value", 1, "value", wInt⟩]
+def tIR (rv : Vid) : IRQuery :=
+  { rootName := "Four", rootParams := [], variables := [("one", ⟨"Int", [false]⟩)], rootComponent := tRoot rv }
+
+def wF2 : Fold := tF2 2
+def wRoot : Component := tRoot 2
+def wIR : IRQuery := tIR 2
 
 def wC1 : Ctx := { Ctx.new (some 4) with vertices := [(1, some 4)] }
 def wElems (a b : Nat) (vid : Vid) : List Ctx :=
   [{ Ctx.new (some a) with vertices := [(vid, some a)] }, { Ctx.new (some b) with vertices := [(vid, some b)] }]
 
-/-- the first fold for the one context: 2 divisors; the slot holds `min 2 1` with the limits -/
+/-- the engine's eligibility test rejects the first fold: its count is observed by the sibling -/
+theorem wLimits : foldLimits (wEnv true) wRoot wF1 = .ok (none, none) := rfl
+
+/-- the first fold for the one context: 2 divisors, with and without the limits -/
 theorem wFold1 (lim : Bool) :
-    computeFold (wEnv lim) 63 wRoot wF1 [wC1] =
-      .ok [{ wC1 with foldCounts := [(1, some (if lim then 1 else 2))] }] := by
+    computeFold (wEnv lim) 63 wRoot wF1 [wC1] = .ok [{ wC1 with foldCounts := [(1, some 2)] }] := by
   cases lim
   · exact computeFold_single (wEnv false) 63 wRoot wF1 wC1 (wV 1) wC1 wC1 (none, none) [1, 2] (wElems 1 2 2) _
       rfl rfl rfl rfl rfl (by rw [computeComponent_leaf _ _ _ (wV 2) _ rfl rfl rfl]; rfl) rfl
-  · exact computeFold_single (wEnv true) 63 wRoot wF1 wC1 (wV 1) wC1 wC1 (none, some 1) [1, 2] (wElems 1 2 2) _
+  · exact computeFold_single (wEnv true) 63 wRoot wF1 wC1 (wV 1) wC1 wC1 (none, none) [1, 2] (wElems 1 2 2) _
       rfl rfl rfl rfl rfl (by rw [computeComponent_leaf _ _ _ (wV 2) _ rfl rfl rfl]; rfl) rfl
-
-/-- the second fold sees the truncated count 1 in the first fold's slot: `2 = 1` fails -/
-theorem wFold2_lim :
-    computeFold (wEnv true) 63 wRoot wF2 [{ wC1 with foldCounts := [(1, some 1)] }] = .ok [] :=
-  computeFold_single (wEnv true) 63 wRoot wF2 _ (wV 1) _ _ (none, none) [4, 8] (wElems 4 8 3) none
-      rfl rfl rfl rfl rfl (by rw [computeComponent_leaf _ _ _ (wV 3) _ rfl rfl rfl]; rfl) rfl
 
 def wC3 : Ctx := { wC1 with foldCounts := [(1, some 2), (2, some 2)],
                             foldedValues := [((2, "m"), some (.uint64 2))] }
 
-theorem wFold2_nolim :
-    computeFold (wEnv false) 63 wRoot wF2 [{ wC1 with foldCounts := [(1, some 2)] }] = .ok [wC3] :=
-  computeFold_single (wEnv false) 63 wRoot wF2 _ (wV 1) _ _ (none, none) [4, 8] (wElems 4 8 3) (some wC3)
+/-- the second fold sees the real count 2 in the first fold's slot: `2 = 2` holds -/
+theorem wFold2 (lim : Bool) :
+    computeFold (wEnv lim) 63 wRoot wF2 [{ wC1 with foldCounts := [(1, some 2)] }] = .ok [wC3] := by
+  cases lim
+  · exact computeFold_single (wEnv false) 63 wRoot wF2 _ (wV 1) _ _ (none, none) [4, 8] (wElems 4 8 3) (some wC3)
+      rfl rfl rfl rfl rfl (by rw [computeComponent_leaf _ _ _ (wV 3) _ rfl rfl rfl]; rfl) rfl
+  · exact computeFold_single (wEnv true) 63 wRoot wF2 _ (wV 1) _ _ (none, none) [4, 8] (wElems 4 8 3) (some wC3)
       rfl rfl rfl rfl rfl (by rw [computeComponent_leaf _ _ _ (wV 3) _ rfl rfl rfl]; rfl) rfl
 
-theorem wRun_lim : interpret (wEnv true) wIR = .ok [] := by
-  have h : computeComponent (wEnv true) 64 wRoot [Ctx.new (some 4)] = .ok [] := by
+theorem wRun (lim : Bool) :
+    interpret (wEnv lim) wIR = .ok [[("m", .uint64 2), ("value", .int64 4)]] := by
+  have h : computeComponent (wEnv lim) 64 wRoot [Ctx.new (some 4)] = .ok [wC3] := by
     rw [computeComponent]
-    show ((enterVertex (wEnv true) wRoot (wV 1) [Ctx.new (some 4)]).bind fun ctxs1 =>
-      (mergeStages [] [wF1, wF2] 2).bind fun stages => runStages (wEnv true) 63 wRoot stages [1] ctxs1) = _
-    rw [show enterVertex (wEnv true) wRoot (wV 1) [Ctx.new (some 4)] = .ok [wC1] from rfl]
+    show ((enterVertex (wEnv lim) wRoot (wV 1) [Ctx.new (some 4)]).bind fun ctxs1 =>
+      (mergeStages [] [wF1, wF2] 2).bind fun stages => runStages (wEnv lim) 63 wRoot stages [1] ctxs1) = _
+    rw [show enterVertex (wEnv lim) wRoot (wV 1) [Ctx.new (some 4)] = .ok [wC1] from by cases lim <;> rfl]
     simp only [mergeStages, List.map, R.bind_ok]
-    rw [runStages, show checkVisited [1] wF1.fromVid wF1.toVid = .ok [2, 1] from rfl, R.bind_ok, wFold1 true,
+    rw [runStages, show checkVisited [1] wF1.fromVid wF1.toVid = .ok [2, 1] from rfl, R.bind_ok, wFold1 lim,
       R.bind_ok, runStages, show checkVisited [2, 1] wF2.fromVid wF2.toVid = .ok [3, 2, 1] from rfl, R.bind_ok]
+    rw [wFold2 lim, R.bind_ok, runStages]
+  show (interpretFrom (wEnv lim) wIR [4]) = _
+  unfold interpretFrom
+  show (computeComponent (wEnv lim) 64 wRoot [Ctx.new (some 4)]).bind _ = _
+  rw [h]; cases lim <;> rfl
+
+/-! #### the same query with an INCONSISTENT count reference (`fold_root_vid` 99 instead of 2 — not
+an IR the frontend builds): `has_tag_on_fold_count` compares Eid *and* root, the lookup of the count
+goes by the Eid alone, so the first fold is truncated although its count is read.  This is why the
+global theorem asks for consistent references (`countRefsWFC`). -/
+
+def xF2 : Fold := tF2 99
+def xRoot : Component := tRoot 99
+def xIR : IRQuery := tIR 99
+
+/-- the first fold for the one context: 2 divisors; the slot holds `min 2 1` with the limits -/
+theorem xFold1 (lim : Bool) :
+    computeFold (wEnv lim) 63 xRoot wF1 [wC1] =
+      .ok [{ wC1 with foldCounts := [(1, some (if lim then 1 else 2))] }] := by
+  cases lim
+  · exact computeFold_single (wEnv false) 63 xRoot wF1 wC1 (wV 1) wC1 wC1 (none, none) [1, 2] (wElems 1 2 2) _
+      rfl rfl rfl rfl rfl (by rw [computeComponent_leaf _ _ _ (wV 2) _ rfl rfl rfl]; rfl) rfl
+  · exact computeFold_single (wEnv true) 63 xRoot wF1 wC1 (wV 1) wC1 wC1 (none, some 1) [1, 2] (wElems 1 2 2) _
+      rfl rfl rfl rfl rfl (by rw [computeComponent_leaf _ _ _ (wV 2) _ rfl rfl rfl]; rfl) rfl
+
+/-- the second fold sees the truncated count 1 in the first fold's slot: `2 = 1` fails -/
+theorem xFold2_lim :
+    computeFold (wEnv true) 63 xRoot xF2 [{ wC1 with foldCounts := [(1, some 1)] }] = .ok [] :=
+  computeFold_single (wEnv true) 63 xRoot xF2 _ (wV 1) _ _ (none, none) [4, 8] (wElems 4 8 3) none
+      rfl rfl rfl rfl rfl (by rw [computeComponent_leaf _ _ _ (wV 3) _ rfl rfl rfl]; rfl) rfl
+
+theorem xFold2_nolim :
+    computeFold (wEnv false) 63 xRoot xF2 [{ wC1 with foldCounts := [(1, some 2)] }] = .ok [wC3] :=
+  computeFold_single (wEnv false) 63 xRoot xF2 _ (wV 1) _ _ (none, none) [4, 8] (wElems 4 8 3) (some wC3)
+      rfl rfl rfl rfl rfl (by rw [computeComponent_leaf _ _ _ (wV 3) _ rfl rfl rfl]; rfl) rfl
+
+theorem xRun_lim : interpret (wEnv true) xIR = .ok [] := by
+  have h : computeComponent (wEnv true) 64 xRoot [Ctx.new (some 4)] = .ok [] := by
+    rw [computeComponent]
+    show ((enterVertex (wEnv true) xRoot (wV 1) [Ctx.new (some 4)]).bind fun ctxs1 =>
+      (mergeStages [] [wF1, xF2] 2).bind fun stages => runStages (wEnv true) 63 xRoot stages [1] ctxs1) = _
+    rw [show enterVertex (wEnv true) xRoot (wV 1) [Ctx.new (some 4)] = .ok [wC1] from rfl]
+    simp only [mergeStages, List.map, R.bind_ok]
+    rw [runStages, show checkVisited [1] wF1.fromVid wF1.toVid = .ok [2, 1] from rfl, R.bind_ok, xFold1 true,
+      R.bind_ok, runStages, show checkVisited [2, 1] xF2.fromVid xF2.toVid = .ok [3, 2, 1] from rfl, R.bind_ok]
     simp only [if_true]
-    rw [wFold2_lim, R.bind_ok, runStages]
-  show (interpretFrom (wEnv true) wIR [4]) = _
+    rw [xFold2_lim, R.bind_ok, runStages]
+  show (interpretFrom (wEnv true) xIR [4]) = _
   unfold interpretFrom
-  show (computeComponent (wEnv true) 64 wRoot [Ctx.new (some 4)]).bind _ = _
+  show (computeComponent (wEnv true) 64 xRoot [Ctx.new (some 4)]).bind _ = _
   rw [h]; rfl
 
-theorem wRun_nolim : interpret (wEnv false) wIR = .ok [[("m", .uint64 2), ("value", .int64 4)]] := by
-  have h : computeComponent (wEnv false) 64 wRoot [Ctx.new (some 4)] = .ok [wC3] := by
+theorem xRun_nolim : interpret (wEnv false) xIR = .ok [[("m", .uint64 2), ("value", .int64 4)]] := by
+  have h : computeComponent (wEnv false) 64 xRoot [Ctx.new (some 4)] = .ok [wC3] := by
     rw [computeComponent]
-    show ((enterVertex (wEnv false) wRoot (wV 1) [Ctx.new (some 4)]).bind fun ctxs1 =>
-      (mergeStages [] [wF1, wF2] 2).bind fun stages => runStages (wEnv false) 63 wRoot stages [1] ctxs1) = _
-    rw [show enterVertex (wEnv false) wRoot (wV 1) [Ctx.new (some 4)] = .ok [wC1] from rfl]
+    show ((enterVertex (wEnv false) xRoot (wV 1) [Ctx.new (some 4)]).bind fun ctxs1 =>
+      (mergeStages [] [wF1, xF2] 2).bind fun stages => runStages (wEnv false) 63 xRoot stages [1] ctxs1) = _
+    rw [show enterVertex (wEnv false) xRoot (wV 1) [Ctx.new (some 4)] = .ok [wC1] from rfl]
     simp only [mergeStages, List.map, R.bind_ok]
-    rw [runStages, show checkVisited [1] wF1.fromVid wF1.toVid = .ok [2, 1] from rfl, R.bind_ok, wFold1 false,
-      R.bind_ok, runStages, show checkVisited [2, 1] wF2.fromVid wF2.toVid = .ok [3, 2, 1] from rfl, R.bind_ok]
+    rw [runStages, show checkVisited [1] wF1.fromVid wF1.toVid = .ok [2, 1] from rfl, R.bind_ok, xFold1 false,
+      R.bind_ok, runStages, show checkVisited [2, 1] xF2.fromVid xF2.toVid = .ok [3, 2, 1] from rfl, R.bind_ok]
     simp only [Bool.false_eq_true, if_false]
-    rw [wFold2_nolim, R.bind_ok, runStages]
-  show (interpretFrom (wEnv false) wIR [4]) = _
+    rw [xFold2_nolim, R.bind_ok, runStages]
+  show (interpretFrom (wEnv false) xIR [4]) = _
   unfold interpretFrom
-  show (computeComponent (wEnv false) 64 wRoot [Ctx.new (some 4)]).bind _ = _
+  show (computeComponent (wEnv false) 64 xRoot [Ctx.new (some 4)]).bind _ = _
   rw [h]; rfl
 
-/-! #### F-29: `{ Four { value @output divisor @fold @transform(op:"count") @filter(op:">=",
-value:["$one"]) { multiple @fold { value @output(name:"inner") } } } }` -/
+/-! #### the former witness of F-29: `{ Four { value @output divisor @fold @transform(op:"count")
+@filter(op:">=", value:["$one"]) { multiple @fold { value @output(name:"inner") } } } }`.
+`component_has_outputs` now looks into the nested fold: the outer fold is not truncated. -/
 
 def nComp3 : Component := .mk 3 [wV 3] [] [] [⟨"inner", 3, "value", wInt⟩]
 def nF2 : Fold := .mk 2 2 3 "multiple" [] nComp3 [] [] []
@@ -143,6 +198,8 @@ def nF1 : Fold := .mk 1 1 2 "divisor" [] nComp2 [] [] [wGe1]
 def nRoot : Component := .mk 1 [wV 1] [] [nF1] [⟨"value", 1, "value", wInt⟩]
 def nIR : IRQuery :=
   { rootName := "Four", rootParams := [], variables := [("one", ⟨"Int", [false]⟩)], rootComponent := nRoot }
+
+theorem nLimits : foldLimits (wEnv true) nRoot nF1 = .ok (none, none) := rfl
 
 /-- element `i` of the outer fold before / after its nested fold -/
 def nD (i : Nat) : Ctx := { Ctx.new (some i) with vertices := [(2, some i)] }
@@ -172,20 +229,19 @@ theorem nInner (lim : Bool) :
 def nOut (lists : List Value) (n : Nat) : Ctx :=
   { wC1 with foldCounts := [(1, some n)], foldedValues := [((2, "inner"), some (.list lists))] }
 
-/-- the outer fold: with the limits only the first element is kept — and only its nested list -/
+/-- the outer fold keeps both elements — and both nested lists — with and without the limits -/
 theorem nOuter (lim : Bool) :
     computeFold (wEnv lim) 63 nRoot nF1 [wC1] =
-      .ok [if lim then nOut [.list []] 1 else nOut [.list [], .list [.int64 4, .int64 6]] 2] := by
+      .ok [nOut [.list [], .list [.int64 4, .int64 6]] 2] := by
   cases lim
   · exact computeFold_single (wEnv false) 63 nRoot nF1 wC1 (wV 1) wC1 wC1 (none, none) [1, 2] _ _
       rfl rfl rfl rfl rfl (nInner false) rfl
-  · exact computeFold_single (wEnv true) 63 nRoot nF1 wC1 (wV 1) wC1 wC1 (none, some 1) [1, 2] _ _
+  · exact computeFold_single (wEnv true) 63 nRoot nF1 wC1 (wV 1) wC1 wC1 (none, none) [1, 2] _ _
       rfl rfl rfl rfl rfl (nInner true) rfl
 
 theorem nRun (lim : Bool) :
     interpret (wEnv lim) nIR =
-      .ok [[("inner", .list (if lim then [.list []] else [.list [], .list [.int64 4, .int64 6]])),
-            ("value", .int64 4)]] := by
+      .ok [[("inner", .list [.list [], .list [.int64 4, .int64 6]]), ("value", .int64 4)]] := by
   have h := computeComponent_oneFold (wEnv lim) 63 nRoot (wV 1) nF1 [Ctx.new (some 4)] [wC1] _
     rfl rfl rfl rfl rfl (nOuter lim)
   show (interpretFrom (wEnv lim) nIR [4]) = _
@@ -194,7 +250,7 @@ theorem nRun (lim : Bool) :
   rw [h]
   cases lim <;> rfl
 
-/-! #### a guarded query whose first fold *is* truncated: `{ Four { value @output divisor @fold
+/-! #### a query whose first fold *is* truncated: `{ Four { value @output divisor @fold
 @transform(op:"count") @filter(op:">=", value:["$one"]) multiple @fold @transform(op:"count")
 @output(name:"m") @filter(op:"<=", value:["$one"]) } }` (the second fold has two elements and is
 dropped early by the max limit 1) -/
@@ -253,11 +309,14 @@ theorem gFoldsOK : AllFoldsC (FoldOK (wEnv true)) gRoot := by
     simp only [foldStart, List.length_map] at h1
     omega
 
-theorem gGuard : countUnobservedC gRoot = true := by decide
+theorem gGuard : countRefsWFC gRoot = true := by decide
 
 theorem gTruncated : foldLimits (wEnv true) gRoot gF1 = .ok (none, some 1) ∧
     foldLimits (wEnv true) gRoot gF2 = .ok (some 1, none) := ⟨rfl, rfl⟩
 
-theorem wGuard_fails : countUnobservedC wRoot = false ∧ countUnobservedC nRoot = false := by decide
+/-- the former witnesses are well-formed queries (the theorem applies to them); the query with the
+inconsistent reference is not -/
+theorem wGuard : countRefsWFC wRoot = true ∧ countRefsWFC nRoot = true ∧ countRefsWFC xRoot = false := by
+  decide
 
 end TF.Engine
